@@ -124,9 +124,10 @@ def c02(chk, opts):
 
 def _odometer_binding(chk, thorough):
     """implementation-level binding of FlopOdometer through the guarded accessors in /repo: informational only"""
-    rc, out = run(["cargo", "build", "--offline", "--release", "--features", "hook", "--target-dir", "target-hook", "--bin", "hx"], cwd=HARNESS, timeout=1800)
+    rc, out = run(["cargo", "build", "--offline", "--release", "--features", "hook", "--target-dir", "target-hook", "--bin", "hx"], cwd=HARNESS, timeout=1800,
+                  env={"RUSTFLAGS": "--cfg espada_verif --check-cfg cfg(espada_verif)"})
     if rc != 0:
-        chk.note("I-level binding skipped: the harness does not build with the hook feature (accessors verif_state/verif_entries missing in /repo?)")
+        chk.note("I-level binding skipped: /repo or the harness does not build with --cfg espada_verif and the hook feature (accessors verif_state/verif_entries missing or no longer matching the internals?)")
         return
     trace = chk.path("odometer.ndjson")
     rc, out = run([os.path.join(HARNESS, "target-hook", "release", "hx"), "odometer", "--seed", str(chk.seed), "--family-stride", "10" if thorough else "40",
